@@ -1,7 +1,8 @@
 ---- MODULE MC_Refs ----
 EXTENDS Refs
-KAll == {"param", "paramw", "bind1", "meth", "bind2", "rx", "nested", "const"}
-KNoK == KAll \ {"const"}
+KAll == {"param", "paramw", "bind1", "meth", "bind2", "rx", "nested", "nestedd", "nestedt", "nestedb", "nested2", "const"}
+KNoK == {"param", "paramw", "bind1", "meth", "bind2", "rx", "nested", "nestedd"}
+KProp == {"param", "paramw", "bind1", "bind2", "rx", "nested", "nestedb", "const"}
 KClamp == {"param", "bind1", "rx", "meth"}
 KBasic == {"param", "bind1", "nested"}
 AUpd == {"source", "updctx", "ref"}
